@@ -84,7 +84,7 @@ def run(ctx):
         cases = [cl.case_from_json(j) for j in ctx.replay['cases']]
     else:
         cases = directed()
-        n = 2500 if ctx.quick() else 30000
+        n = 5000 if ctx.quick() else 30000
         while len(cases) < n:
             cfg = cl.default_cfg(r, cap=r.choice([1, 1, 2, 3, 4]))
             k = r.random()
